@@ -512,6 +512,7 @@ type analyzer struct {
 	rt            *rtset                // type structure reachable from the mechanism type under analysis
 	hitCache      map[string]bool
 	hitGen        map[string]int
+	fieldSet      map[string]bool            // variants.go: struct fields some module code sets
 	closuresBySig map[string][]*ssa.Function // module closures and functions by signature
 	runtimeTypes  []types.Type               // every type of the program that is converted to an interface
 }
